@@ -359,6 +359,18 @@ def corpus_descs():
     out.append(([cc.param("sid", dict(k="coded", dct=cc.std(cc.BUINT, 16), v=0x2233)),
                  cc.param("s", dict(k="value", dop=inner, dflt=None))], False,
                 [{"s": {"a": 1, "blob": b"xy"}}, {"s": {"a": 0xFF, "blob": b""}}, {"s": {"a": 7, "blob": b"z", "len": 8}}]))
+    # field items which carry their own LENGTH-KEY: every item has its own length
+    keyed = cc.struct([cc.param("len", dict(k="lenkey", dop=cc.simple(cc.std(cc.BUINT, 8)))),
+                       cc.param("blob", dict(k="value", dop=cc.simple(cc.paramlen(cc.BBYTES, "len")), dflt=None))])
+    kitems = [{"blob": b"xy"}, {"blob": b"z"}, {"blob": b""}, {"blob": b"uvw"}]
+    for fld in (dict(k="eop", s=keyed), dict(k="dynlen", s=keyed, offset=1, cb=0, cbit=0, cnt=u8())):
+        out.append(([cc.param("sid", dict(k="coded", dct=cc.std(cc.BUINT, 8), v=0x22)),
+                     cc.param("f", dict(k="value", dop=fld, dflt=None))], False,
+                    [{"f": kitems[:n]} for n in (1, 2, 4)] + [{"f": kitems[1:3]}] +
+                    # keys passed explicitly, right and wrong
+                    [{"f": [{"len": 16, "blob": b"xy"}, {"len": 8, "blob": b"z"}]}, {"f": [{"len": 8, "blob": b"z"}, {"len": 8, "blob": b"xy"}]}],
+                    [bytes.fromhex(h) for h in (("22107879087a", "22087a107879", "2200", "2208") if fld["k"] == "eop"
+                                                else ("2202107879087a", "2202087a107879", "220100", "22020800"))]))
     # LINEAR with a negative slope and only ONE internal limit (the physical limit it yields is the other one)
     for lo, hi in ((3, None), (None, 40), (3, 40)):
         dop = cc.simple(cc.std(cc.BUINT, 8), cc.linear(100, -2, 1, lo, hi))
